@@ -333,7 +333,18 @@ def free_stream(rng: random.Random, cfg, budget: int = 400) -> bytes:
     out = bytearray()
     for _ in range(rng.randint(1, 7)):
         kind = rng.random()
-        if kind < 0.06:
+        if kind < 0.03:      # check sequences of 0x0000
+            f = item_bytes(zero_check_item(rng))
+            w = stuff(f) if cfg[0] else f
+            out += bytes([FLAG]) + w + bytes([FLAG])
+        elif kind < 0.06:    # two or three frames of other format types back to back, sharing their flags
+            for _k in range(rng.randint(2, 3)):
+                it = item_frame(rng, maxinfo=12)
+                it["type"] = rng.choice([0, 1, 2, 3, 7, 9, 11, 15])
+                f = item_bytes(it)
+                out += bytes([FLAG]) + (stuff(f) if cfg[0] else f)
+            out += bytes([FLAG])
+        elif kind < 0.09:
             f = empty_info_frame(rng)
             w = stuff(f) if cfg[0] else f
             out += bytes([FLAG]) + w + bytes([FLAG])
